@@ -332,6 +332,57 @@ theorem c34_v1_wire_roundtrip (H : Hash) (m : Msg) (hw : m.WF) (hs : m.Sendable 
   rw [c34_wire _ hok hlen]
   exact c34_v1_roundtrip H m hw hs hh
 
+/-- **proto.Unmarshal ∘ proto.Marshal = id** for the general reader (`unmarshalPMsg`: arbitrary bytes,
+unknown fields and groups skipped, wrong wire types treated as unknown, truncation / stray end-group /
+reserved wire types / field number 0 or > 2^29-1 rejected). -/
+theorem c34_unmarshal_marshal (p : PMsg) (hok : p.ok) (hlen : (encodePMsg p).length < 2 ^ 64) :
+    unmarshalPMsg (encodePMsg p) = some p := unmarshalPMsg_encodePMsg p hok hlen
+
+/-- **Self-certifying, at the level of wire bytes**: whatever bytes arrive (mutated, truncated, with
+unknown fields …), if `FromNet`'s pipeline (Unmarshal, then newMessageFromProto) accepts them, every
+block of the result carries a CID computed from its own data. -/
+theorem c34_self_certifying_wire (H : Hash) (b : Bytes) (m : Msg) (h : fromWire H b = some m) :
+    ∀ x ∈ m.blocks, (∃ pfx, H.sum pfx x.2 = some x.1) ∨ x.1 = H.sumV0 x.2 := by
+  unfold fromWire at h
+  cases hp : unmarshalPMsg b with
+  | none => simp [hp] at h
+  | some p => rw [hp] at h; exact c34_self_certifying H p m h
+
+/-- **Malformed wire bytes are rejected as a whole**: bytes protobuf cannot parse, or bytes whose parse
+contains a wantlist entry / block presence with a missing or undecodable CID or a payload block whose
+prefix cannot be hashed, yield no message at all. -/
+theorem c34_reject_wire (H : Hash) (b : Bytes) :
+    (unmarshalPMsg b = none → fromWire H b = none) ∧
+    (∀ p, unmarshalPMsg b = some p →
+      ((∃ es f e, p.wantlist = some (es, f) ∧ e ∈ es ∧ (e.block.length = 0 ∨ H.cast e.block = false)) ∨
+       (∃ x ∈ p.presences, x.cid.length = 0 ∨ H.cast x.cid = false) ∨
+       (∃ x ∈ p.payload, H.sum x.pfx x.data = none)) → fromWire H b = none) := by
+  refine ⟨fun h => by simp [fromWire, h], ?_⟩
+  intro p hp hbad
+  simp only [fromWire, hp, Option.bind_some]
+  rcases hbad with ⟨es, f, e, hw, he, hb⟩ | ⟨x, hx, hb⟩ | ⟨x, hx, hb⟩
+  · exact c34_reject_entry H p es f hw e he hb
+  · exact c34_reject_presence H p x hx hb
+  · exact c34_reject_payload H p x hx hb
+
+/-- bytes of `ToProtoV1 m` go through the whole receive pipeline and come back as `m` -/
+theorem c34_v1_fromWire_roundtrip (H : Hash) (m : Msg) (hw : m.WF) (hs : m.Sendable H) (hh : m.Honest H)
+    (hok : (toProtoV1 H m).ok) (hlen : (encodePMsg (toProtoV1 H m)).length < 2 ^ 64) :
+    ∃ m', fromWire H (encodePMsg (toProtoV1 H m)) = some m' ∧ m'.full = m.full ∧ m'.pending = m.pending ∧
+      ∀ c, m'.getEntry c = m.getEntry c ∧ m'.getBlock c = m.getBlock c ∧ m'.getPres c = m.getPres c := by
+  unfold fromWire
+  rw [c34_unmarshal_marshal _ hok hlen]
+  exact c34_v1_roundtrip H m hw hs hh
+
+/-- examples of rejected wire bytes: truncated length, stray end-group, reserved wire type, field number 0 -/
+example : unmarshalPMsg [0x12, 0x05, 0x01] = none := by decide
+example : unmarshalPMsg [0x0c] = none := by decide
+example : unmarshalPMsg [0x0e, 0x00] = none := by decide
+example : unmarshalPMsg [0x00, 0x00] = none := by decide
+/-- … and of tolerated ones: an unknown field, a group, a known field with the wrong wire type -/
+example : unmarshalPMsg [0x30, 0x07, 0x28, 0x09] = some { pendingBytes := 9 } := by decide
+example : unmarshalPMsg [0x33, 0x08, 0x01, 0x34, 0x2d, 1, 2, 3, 4] = some {} := by decide
+
 /-- **addEntry merge laws**: cancel and send-dont-have are sticky, the strongest want type wins
 (Block = 0 over Have = 1), the priority only follows a want of the same type, other CIDs are untouched. -/
 theorem c34_merge (m : Msg) (c : Bytes) (prio : Int) (cn : Bool) (ty : Int) (sdh : Bool) :
